@@ -124,6 +124,9 @@ impl Ctl {
 
     /// Wait until a thread is parked at the trap, or `done()` says the victim finished, or timeout.
     pub fn wait_parked(&self, done: &dyn Fn() -> bool, timeout: Duration) -> WaitOutcome {
+        // Miri's clock is virtual (it advances whenever every thread sleeps), so deadlines there
+        // are only a backstop
+        let timeout = if cfg!(miri) { timeout * 2000 } else { timeout };
         let start = Instant::now();
         let mut st = self.st.lock().unwrap();
         loop {
